@@ -85,6 +85,7 @@ type Sched struct {
 	scriptPos int
 	closedCh map[uintptr]bool
 	idleTicks int // ticks delivered while nothing else could move (bounded per episode)
+	hold      func(tid, site int, kind string) bool
 }
 
 var S *Sched
@@ -173,10 +174,30 @@ func Enter(site int, recv any) int {
 
 func Leave(site int) { Note(site, "leave", nil, nil, "") }
 
+// Hold lets a scenario keep one goroutine at a given operation (a directed schedule: "the event
+// loop is descheduled right before it reserves a slot"): while fn(goroutine id, site, kind) is
+// true the goroutine is treated as not enabled. nil = no hold.
+func Hold(fn func(tid, site int, kind string) bool) {
+	if S != nil {
+		S.hold = fn
+	}
+}
+
+// PendingOf reports the operation a goroutine is about to take (site 0, "" if none).
+func PendingOf(tid int) (int, string) {
+	if S == nil || tid < 0 || tid >= len(S.gs) || S.gs[tid].pend == nil {
+		return 0, ""
+	}
+	return S.gs[tid].pend.Site, S.gs[tid].pend.Kind
+}
+
 func (s *Sched) enabledGs() []*G {
 	var en, idle []*G
 	for _, g := range s.gs {
 		if g.done || g.pend == nil {
+			continue
+		}
+		if s.hold != nil && s.hold(g.ID, g.pend.Site, g.pend.Kind) {
 			continue
 		}
 		if g.pend.Idle {
